@@ -241,6 +241,27 @@ def check(case):
                 keys = []
             if keys and keys != expected:
                 return Result.violation("solution-keys", f"{keys} vs {expected}; {desc}", classes)
+        # the objective is replaced AFTER the variable list was read: the list must follow the new model
+        if len(expected) >= 2:
+            keep = expected[0]
+            cons_used = set()
+            for c in case["constraints"]:
+                lhs = alg.ev(c["lhs"])
+                for s_ in (lhs if c["kind"] == "vector" else [lhs]):
+                    cons_used |= s_
+                if isinstance(c["rhs"], list):
+                    cons_used |= alg.ev(c["rhs"])
+            expected2 = sorted(cons_used | {keep}, key=natural_key)
+            try:
+                P.minimize(b.var_objects()[keep] * 2.0)
+                names3 = [v.name for v in P.variables]
+                nb3 = len(P.get_bounds())
+            except Exception as ex:
+                return Result.violation(f"variables-raises:{exc_label(ex)}", f"after replacing the objective: {ex!r}; {desc}", classes)
+            classes.append("objective-replaced-after-read")
+            if names3 != expected2 or nb3 != len(expected2):
+                return Result.violation("stale-variables-after-objective-change",
+                                        f"objective replaced by 2*{keep}: variables {names3}, expected {expected2}; {desc}", classes)
     ndecl = len({nm.split("[")[0] for nm in expected})
     view = env["views"].get("h0")
     nontrivial = (len(expected) >= 3 and ndecl >= 2) or (case["stratum"] != "general" and view and view[0] != "vvar")
